@@ -989,6 +989,6 @@ def main(tier):
                deep_copy_sequences=seqs, asan_lookups=st['asan_calls'])
     return ck.finish(cov, ['macro values come from a compiled probe of the public headers; macro names are matched to API names after reducing both '
                            'to upper-case alphanumerics (checked to be injective on the catalogue)',
-                           'ctypes structure layouts in xl.py mirror include/xraylib-*.h',
+                           'ctypes structure layouts in xl.py come from a compiled probe of the tree\'s headers (build.layout)',
                            'mass fractions are printed with 6 decimals: tolerance n x 0.5e-6',
                            'all ctypes work runs in forked children; a child that dies is reported as a violation with its last announced step'])
